@@ -218,11 +218,12 @@ def gen_op(rnd, cfg, with_resize=False):
         off = rnd.choice([0, 1, -1, n - 1, n, -n, rnd.randint(-n - 1, n + 1)])
         return ["seek", off, wh]
     if r < 0.69:
-        return ["dur", rnd.choice([1, 9, "DYNAMIC", 0, -3, 12])]
+        # (1 and 2**61 hash alike, as -1 and -2 do below: values that differ but collide)
+        return ["dur", rnd.choice([1, 9, "DYNAMIC", 0, -3, 12, 1, 2**61])]
     if r < 0.77:
         return ["pad", rnd.choice(PADS)]
     if r < 0.84:
-        return [rnd.choice(["args", "args", "args_bad", "args_base"]), rnd.randint(0, 3)]
+        return [rnd.choice(["args", "args", "args_bad", "args_base"]), rnd.choice([0, 1, 2, 3, -1, -2, -1, -2, 2**61 - 1])]
     if r < 0.92:
         return ["size", rnd.randint(1, 4), rnd.randint(1, 3)]
     if r < 0.96 and with_resize:
